@@ -80,6 +80,22 @@ def cycle(prog, rep, fn, tag):
                     shape1 = e1[0] == "bin" and e1[1] == "Add" and e1[2] == e0 and e1[3][0] == "call" and e1[3][1] == "num::saturating_sub" and "pdi_len" in str(e1[3][2][0])
                     ok3 = ok3 or (shape0 and shape1)
                 okc = ok2 and ok3 and any(r[0] == "call" and len(r) > 2 and r[2] == c.bb for r in ch)
+        if not okc:
+            # the same slice written as image[min(sent, pdi_len) .. pdi_len] (start + (pdi_len - sent) is pdi_len)
+            for c in idx:
+                recv = pc.of_operand(c.args[0])
+                if not has_root(recv, "call", "MySyncUnsafeCell::get_mut") or not any(r[0] == "call" and len(r) > 2 and r[2] == c.bb for r in ch):
+                    continue
+                for bi_, si_, s_ in q.aggregates(b, "Range"):
+                    if (op_place(c.args[1]) or {}).get("l") != s_["place"]["l"]:
+                        continue
+                    m = q.as_min(b, q.agg_field(s_, "start"))
+                    if m is None:
+                        continue
+                    f0, f1 = (q.is_field_read(b, x, "SubDeviceGroup", "pdi_len") if "callval" not in x else False for x in m)
+                    other = m[1] if f0 else m[0]
+                    if f0 != f1 and "callval" not in other and _is_acc(b, Prov(b).of_operand(other), "push") and q.is_field_read(b, q.agg_field(s_, "end"), "SubDeviceGroup", "pdi_len"):
+                        okc = True
         f["chunk"] = okc
     rep.ob(P, "%s:lrw-address%s" % (fn, tag), bool(f.get("lrw-address")), "LRW address = pdi_start.start_address + total_bytes_sent", loc=b.span, how="dataflow")
     rep.ob(P, "%s:chunk%s" % (fn, tag), bool(f.get("chunk")), "chunk = image[min(sent, pdi_len) .. + pdi_len.saturating_sub(sent)] of the write-locked image", loc=b.span, how="dataflow")
